@@ -61,7 +61,8 @@ class Gen:
         fname = f"f{self.n}"
         args = {"ii_i": "i64:a, i64:b", "i_i": "i64:a", "dd_d": "d:a, d:b", "dd_i": "d:a, d:b", "d_d": "d:a",
                 "d_i": "d:a", "i_d": "i64:a", "ff_f": "f:a, f:b", "ff_i": "f:a, f:b", "f_f": "f:a", "f_i": "f:a",
-                "i_f": "i64:a", "f_d": "f:a", "d_f": "d:a"}[sig]
+                "i_f": "i64:a", "f_d": "f:a", "d_f": "d:a", "ll_l": "ld:a, ld:b", "ll_i": "ld:a, ld:b", "l_l": "ld:a",
+                "l_i": "ld:a", "i_l": "i64:a", "l_d": "ld:a", "d_l": "d:a", "l_f": "ld:a", "f_l": "f:a"}[sig]
         body = body.replace("@", f"L{self.n}_")
         self.funcs.append(f"{fname}: func {res}, {args}\n  local {locs}\n{body}\n  endfunc\n")
         self.meta[fname] = {"key": key, "sig": sig, "dom": dom, "fixed_b": fixed_b, "shape": shape}
@@ -153,6 +154,20 @@ def build_funcs(ck, imms, quick):
     g.add("fp:d2i", "d_i", "  d2i r, a\n  ret r", dom="d2i")
     g.add("fp:f2d", "f_d", "  f2d r, a\n  ret r", locs="d:r", res="d")
     g.add("fp:d2f", "d_f", "  d2f r, a\n  ret r", locs="f:r", res="f")
+    # long double: reference values come from gcc-compiled C inside the harness (`ref` command)
+    for o in ("add", "sub", "mul", "div"):
+        g.add(f"ldbl:ld{o}", "ll_l", f"  ld{o} r, a, b\n  ret r", locs="ld:r", res="ld", shape="rr")
+    g.add("ldbl:ldneg", "l_l", "  ldneg r, a\n  ret r", locs="ld:r", res="ld", shape="r")
+    for c in ("eq", "ne", "lt", "le", "gt", "ge"):
+        g.add(f"ldbl:ld{c}", "ll_i", f"  ld{c} r, a, b\n  ret r", shape="cmp")
+        g.add(f"ldbl:ld{c}", "ll_i", f"  ldb{c} @t, a, b\n  mov r, 0\n  ret r\n@t:\n  mov r, 1\n  ret r", shape="br")
+    g.add("ldbl:i2ld", "i_l", "  i2ld r, a\n  ret r", locs="ld:r", res="ld")
+    g.add("ldbl:ui2ld", "i_l", "  ui2ld r, a\n  ret r", locs="ld:r", res="ld")
+    g.add("ldbl:ld2i", "l_i", "  ld2i r, a\n  ret r", dom="l2i")
+    g.add("ldbl:ld2d", "l_d", "  ld2d r, a\n  ret r", locs="d:r", res="d")
+    g.add("ldbl:ld2f", "l_f", "  ld2f r, a\n  ret r", locs="f:r", res="f")
+    g.add("ldbl:d2ld", "d_l", "  d2ld r, a\n  ret r", locs="ld:r", res="ld")
+    g.add("ldbl:f2ld", "f_l", "  f2ld r, a\n  ret r", locs="ld:r", res="ld")
     return g
 
 
@@ -186,6 +201,13 @@ def fp_grids(ck, quick):
         dv.append(d((ck.rng.below(2000001) - 1000000) / 7.0))
         fv.append(f((ck.rng.below(2000001) - 1000000) / 7.0))
     return dv, fv
+
+
+LVALS = ["0", "80000000000000000000", "3fff8000000000000000", "bfff8000000000000000", "3fffc000000000000000",
+         "4000c90fdaa22168c235", "403e8000000000000000", "403effffffffffffffff", "c03e8000000000000000", "403f8000000000000001",
+         "3ffe8000000000000000", "3fbf8000000000000000", "7ffe8000000000000000", "00018000000000000000", "00000000000000000001",
+         "7fff8000000000000000", "ffff8000000000000000", "7fffc000000000000000", "401e8000000000000000", "c01e8000000100000000",
+         "3ffd999999999999999a"]
 
 
 def expected_key(meta, a, b):
@@ -225,7 +247,7 @@ def main():
     iv = int_grid(ck, quick)
     dv, fv = fp_grids(ck, quick)
     plan = ["ivals " + " ".join(f"{x:x}" for x in iv), "dvals " + " ".join(f"{x:x}" for x in dv),
-            "fvals " + " ".join(f"{x:x}" for x in fv)]
+            "fvals " + " ".join(f"{x:x}" for x in fv), "lvals " + " ".join(LVALS)]
     for fn, m in g.meta.items():
         plan.append(f"grid {fn} {m['sig']} {m['dom'] if m['fixed_b'] is None else 'any'}")
     ck.log(f"{len(g.meta)} functions, grid {len(iv)} ints, {len(dv)} doubles, {len(fv)} floats")
@@ -252,12 +274,25 @@ def main():
             continue
         rs = right.split()
         evals.append((fn, a, b, rs))
+    # long double reference values (native C in the harness)
+    ldev = [(i, e) for i, e in enumerate(evals) if g.meta[e[0]]["key"].startswith("ldbl:")]
+    ldexp = {}
+    if ldev:
+        rplan = "".join(f"ref {g.meta[fn]['key'][5:]} {a:x} {b:x}\n" for _, (fn, a, b, rs) in ldev)
+        pr = subprocess.run([exe, "interp", mir, "-q"], input=rplan, stdout=subprocess.PIPE, stderr=subprocess.PIPE, text=True)
+        nl = [l.split()[2] for l in pr.stdout.split("\n") if l.startswith("N ")]
+        if len(nl) != len(ldev):
+            ck.broken_ties.append({"kind": "ld-reference", "got": len(nl), "want": len(ldev), "err": pr.stderr[-300:], "rc": pr.returncode,
+                                   "next_line": rplan.split("\n")[len(nl)][:100], "tail": pr.stdout[-200:],
+                                   "non_n": [l for l in pr.stdout.split("\n") if not l.startswith("N ")][:6]})
+        else:
+            ldexp = {i: v for (i, _), v in zip(ldev, nl)}
     # oracle
     oin = []
     for fn, a, b, rs in evals:
         k, x, y = expected_key(g.meta[fn], a, b)
         k2 = k[:-4] if k.endswith(":neg") else k
-        oin.append(f"{k2} {x:x} {y:x}")
+        oin.append(f"{k2} {x:x} {y:x}" if not k2.startswith("ldbl:") else "ext:8:1 0 0")
     rc, out, err = ck.drv("mirdrv_c02", [], "\n".join(oin) + "\n")
     exp = out.split("\n")
     if rc != 0 or len(exp) < len(evals):
@@ -268,9 +303,13 @@ def main():
     nontriv = set()
     bad = collections.OrderedDict()
     n_undef = 0
-    for (fn, a, b, rs), e in zip(evals, exp):
+    for idx, ((fn, a, b, rs), e) in enumerate(zip(evals, exp)):
         m = g.meta[fn]
         key = m["key"]
+        if key.startswith("ldbl:"):
+            if idx not in ldexp:
+                continue
+            e = ldexp[idx]
         dist[key.split(":")[0]] += 1
         shapes[m["shape"]] += 1
         if e == "undef":
@@ -280,7 +319,21 @@ def main():
             ck.broken_ties.append({"kind": "oracle-key", "key": key})
             break
         want = e
-        if key.startswith("fp:"):
+        if key.startswith("ldbl:"):
+            def lcanon(r):
+                if r.startswith("!"):
+                    return r
+                v = int(r, 16)
+                if m["sig"].endswith("_l") and ((v >> 64) & 0x7fff) == 0x7fff and (v & 0x7fffffffffffffff):
+                    return "nan"
+                if m["sig"].endswith("_d") and (v & 0x7ff0000000000000) == 0x7ff0000000000000 and (v & 0xfffffffffffff):
+                    return "nan"
+                if m["sig"].endswith("_f") and (v & 0x7f800000) == 0x7f800000 and (v & 0x7fffff):
+                    return "nan"
+                return f"{v:x}"
+            want = lcanon(want)
+            got = [lcanon(r.lstrip("=")) for r in rs]
+        elif key.startswith("fp:"):
             def canon(r):
                 kk = key[3:]
                 isf = m["sig"].endswith("_f")
@@ -318,7 +371,7 @@ def main():
     ck.cov["exhaustive"] = False
     ck.assumptions += ["gcc-compiled mir-interp.c implements the C operators as two's-complement wrap-around (macroSem)",
                        "floating point compared with Lean's native Float/Float32 (IEEE via the same CPU); NaN payloads ignored",
-                       "long double instructions are not covered by this check"]
+                       "long double instructions are compared with gcc-compiled C executed inside the harness (x87), not with a Lean specification"]
     ck.cov["failing_classes"] = len(bad)
     for sigk, rep in list(bad.items())[:12]:
         key, wrong = sigk
